@@ -173,6 +173,21 @@ pub fn run_frame(part: &mut Part) {
         vec![None, Some(0), Some(1), Some(BLOCK - 7 - 1), Some(BLOCK - 7), Some(BLOCK - 7 + 1)]
     };
     let seconds: Vec<Option<usize>> = vec![None, Some(0), Some(1), Some(BLOCK - 7)];
+    let long_ks: Vec<usize> = if TINY {
+        let mut v: Vec<usize> = (29..=36).collect();
+        v.extend([63, 64, 65, 127, 128, 129]);
+        if !quick {
+            v.extend(37..=62);
+            v.extend([255, 256, 257]);
+        }
+        v
+    } else if quick {
+        vec![31, 32, 33, 40]
+    } else {
+        vec![15, 16, 17, 30, 31, 32, 33, 34, 40, 63, 64, 65]
+    };
+    let long_deltas = if TINY { -2i64..=2 } else { -1i64..=1 };
+    let long_followers: Vec<Option<usize>> = if TINY { vec![None, Some(0), Some(1), Some(BLOCK - 7)] } else { vec![None, Some(1)] };
     let starts: Vec<usize> = starts.into_iter().filter(|s| prefix_for(*s).is_some()).collect();
     let next = AtomicUsize::new(0);
     let merged = Mutex::new(Stats::default());
@@ -187,12 +202,35 @@ pub fn run_frame(part: &mut Part) {
                     }
                     let start = starts[i];
                     let prefix = prefix_for(start).unwrap();
+                    // long entries (dozens of frames), lengths chosen relative to the start offset so
+                    // that the entry ends exactly at / just before / just after a block end
+                    let room = if BLOCK - start % BLOCK >= 7 { BLOCK - start % BLOCK - 7 } else { BLOCK - 7 };
+                    let mut cases: Vec<(usize, Option<usize>, Option<usize>)> = Vec::new();
+                    for k in &long_ks {
+                        for delta in long_deltas.clone() {
+                            let len = (room + k * (BLOCK - 7)) as i64 + delta;
+                            if len < 0 {
+                                continue;
+                            }
+                            for f in &long_followers {
+                                cases.push((len as usize, *f, None));
+                            }
+                        }
+                    }
+                    stats.count("long_entry_cases_(31+_frames)", cases.len() as u64);
                     for len in &lens {
                         for f in &followers {
                             for s in &seconds {
                                 if f.is_none() && s.is_some() {
                                     continue;
                                 }
+                                cases.push((*len, *f, *s));
+                            }
+                        }
+                    }
+                    for (len, f, s) in &cases {
+                        {
+                            {
                                 let mut entries = prefix.clone();
                                 entries.push(entry_bytes(1, *len));
                                 if let Some(f) = f {
@@ -246,6 +284,7 @@ pub fn run_frame(part: &mut Part) {
             "start_offsets": starts.len(), "start_offset_values": if TINY { json!("0 and 7..=64 (1..6 cannot be reached: a frame is at least 7 bytes)") } else { json!(starts) },
             "entry_lengths": lens.len(), "entry_length_range": [lens.first(), lens.last()],
             "followers": followers.len(), "second_followers": seconds.len(),
+            "long_entries": {"whole_frames_after_the_first (k)": long_ks, "byte_deltas_around_exact_block_end": [*long_deltas.start(), *long_deltas.end()], "followers": long_followers, "entry_len": "room left in the start block - 7 + k*(BLOCK-7) + delta"},
         }
     });
     part.stats.sample(|| json!({"start_offset": 57, "entry_len": 3, "follower_len": 0, "second_follower_len": null, "meaning": "prefix entry of 50 bytes brings the cursor to 57 (7 bytes left = exactly one header): the 3-byte entry gets an empty First frame"}));
